@@ -41,13 +41,13 @@ type HCReconfResult struct {
 	Err              string `json:"err,omitempty"`
 }
 
-func usableNow(addr string, id int) (bool, error) {
+func usableNow(addr string, token string) (bool, error) {
 	c, err := net.DialTimeout("tcp", addr, 2*time.Second)
 	if err != nil {
 		return false, err
 	}
 	defer c.Close()
-	fmt.Fprintf(c, "C%d\n", id)
+	fmt.Fprint(c, token)
 	c.SetReadDeadline(time.Now().Add(5 * time.Second))
 	line, err := bufio.NewReader(c).ReadString('\n')
 	if err == nil && strings.HasPrefix(line, "B") {
@@ -174,7 +174,7 @@ func runHCReconf(ic bool, from, to [2]int, history string) (res HCReconfResult) 
 			return false, err
 		}
 		id++
-		return usableNow(addr, id)
+		return usableNow(addr, fx.token(id))
 	}
 	const bound = 8
 	for k := 1; k <= bound; k++ {
